@@ -37,6 +37,7 @@ static void chaos_plan(Rng &rng, Plan &p, const std::string &prop) {
     random_cfg(rng, p.cfg, false);
     if (prop == "C10" && rng.coin()) { static const long H[] = {64, 100, 256, 512, 2000}; long h = H[rng.below(5)]; p.cfg.set("field_hard", h); p.cfg.set("field_soft", h / 2); }
     if (prop == "C10" && rng.coin()) { static const long M[] = {1, 2, 8}; p.cfg.set("max_tx", M[rng.below(3)]); }
+    if (prop == "C10" && rng.chance(1, 3)) { static const long HL[] = {1, 4, 16, 64}; p.cfg.set("hdr_limit", HL[rng.below(4)]); }
     int nconn = rng.chance(1, 6) ? (int) rng.range(2, 3) : 1;
     p.conns.resize((size_t) nconn);
     GenFeatures f; f.bare_lf = true; f.wild_path = true; f.wild_host = true; f.content_coding = true;
@@ -1774,11 +1775,7 @@ static bool check_c16(const Plan &p, const RunResult &r, std::string &oracle, st
 // ================================================================================================
 
 std::string plan_trigger(const Plan &p) {
-    if (p.prop == "C08") {
-        std::string pat = c08_pattern_name(p);
-        // many header lines with pairwise distinct names: every line is looked up linearly in the table of all earlier ones
-        if (pat == "req_hdr_distinct" || pat == "res_hdr_distinct") return "c08.distinct_header_names";
-    }
+    (void) p;   // no known finding is identified by a trigger predicate any more (K05, K06 were repaired: F40, F41)
     return "";
 }
 
